@@ -174,9 +174,11 @@ def selftest(ctx, events):
                 if "drop" not in done and len(wanted) >= 2:
                     j = wanted[len(wanted) // 2]
                     done["drop"] = (evs, i, dict(e, res=res[:j] + res[j + 1:]), "IterNoLoss")
-                if "dup" not in done and len(res) >= 1:
+                # (a complete answer - bound "now" - so that a repeated or displaced entry cannot pass for one of the
+                # identical entries a burst leaves in the reference)
+                if "dup" not in done and len(res) >= 1 and e["bclass"] == "max":
                     done["dup"] = (evs, i, dict(e, res=res[:1] + res), "IterOrdered")
-                if "swap" not in done:
+                if "swap" not in done and e["bclass"] == "max":
                     for j in range(len(res) - 1):
                         if res[j] != res[j + 1]:
                             r2 = list(res)
